@@ -890,6 +890,15 @@ class Evolver:
                 self.doc["structures"].append(s_)
                 self.new_structs.append(s_["name"])
                 self.edits.append({"edit": "E1-new-structure", "name": s_["name"], "properties": [p_["name"] for p_ in s_["properties"]]})
+            # ... and a literal whose class would be called like the class of a message: <Stem>.response next to <Stem>Request
+            stems = sorted({m["typeName"][:-7] for m in self.doc["requests"] if m.get("typeName", "").endswith("Request")} & set(self.base_structs))
+            stems = [x for x in stems if all(q["name"] != "response" for st_ in self.doc["structures"] if st_["name"] == x for q in st_["properties"])]
+            if stems:
+                target = self.pick(stems)
+                st_ = next(s_ for s_ in self.doc["structures"] if s_["name"] == target)
+                ty = lit("vfVerbose", "boolean")
+                st_["properties"].append({"name": "response", "type": ty, "optional": True})
+                self.edits.append({"edit": "E2-new-property", "structure": target, "property": "response", "optional": True, "type": ty})
             return
         if focus == "method-mentions-request":
             # messages without typeName whose method carries the words the plugins append as suffixes
